@@ -115,6 +115,11 @@ def regression_case(Dw, Dy, N, concrete=(), timeout=900, cond="full", via="Sigma
         post = prior.multiply(lik, update_full=True)
         d = post.get_density()
         out["prod"] = {"mu": d.mu, "Sigma": d.Sigma, "evidence": post.log_integral()[0]}
+        # the same route through the * operator (no covariance update requested: the result inverts lazily)
+        post2 = prior * lik
+        ev2 = post2.log_integral()[0]
+        d2 = post2.get_density()
+        out["prod_lazy"] = {"mu": d2.mu, "Sigma": d2.Sigma, "evidence": ev2}
         return out
 
     def truth(I, ops):
@@ -157,11 +162,54 @@ def regression_case(Dw, Dy, N, concrete=(), timeout=900, cond="full", via="Sigma
             if adjust:
                 evp = ev + ops.c(Fraction(N * (Dy - Dw), 2)) * ops.ln2pi()
             cl.append(("log_integral(prior x prod set_y) = log marginal likelihood", O["prod"]["evidence"], evp))
+            cl.append(("prior * prod set_y (operator, lazy inversion): posterior mean", O["prod_lazy"]["mu"][0], mp))
+            cl.append(("prior * prod set_y (operator, lazy inversion): posterior covariance", O["prod_lazy"]["Sigma"][0], Sp))
+            cl.append(("log_integral(prior * prod set_y) (operator) = log marginal likelihood", O["prod_lazy"]["evidence"], evp))
             return cl
         return claims
 
     adjusted = ("C11-evidence-through-sety-normaliser", mk_claims(True)) if Dw != Dy else None
     return Case(cid, PROP, cfg, declare, fn, mk_claims(False), timeout=timeout, adjusted=adjusted)
+
+
+def batched_update_case(Dw, Dy, Rp=2, N=2, timeout=900, concrete=()):
+    """one Bayesian update carried out for a BATCH: Rp different priors, one observation model, N data vectors in a single
+    condition_on_x call; component r*N+n of the result must be the posterior of prior r given datum n, and the predictive
+    log-densities must be the N x Rp marginal likelihoods"""
+    cid = f"C11/batched-update/Dw{Dw}Dy{Dy}/Rp{Rp}N{N}" + ("/concrete-" + "-".join(concrete) if concrete else "")
+    cfg = dict(workflow="one update step for a batch of priors and several data vectors at once (layout r*N+n)", Dw=Dw, Dy=Dy, R_prior=Rp, N=N, concrete_blocks=list(concrete))
+
+    def declare(b):
+        _bind(b, "Sw", "spd", (Rp, Dw), "Sw" in concrete); b.free("mw", (Rp, Dw))
+        _bind(b, "M", "free", (1, Dy, Dw), "M" in concrete); b.free("bb", (1, Dy)); _bind(b, "Sy", "spd", (1, Dy), "Sy" in concrete)
+        b.free("y", (N, Dy))
+
+    def fn(**A):
+        factor, measure, pdf, conditional = gt()
+        prior = pdf.GaussianPDF(Sigma=A["Sw"], mu=A["mw"])
+        c = conditional.ConditionalGaussianPDF(M=A["M"], b=A["bb"], Sigma=A["Sy"])
+        post = c.affine_conditional_transformation(prior).condition_on_x(A["y"])
+        pred = c.affine_marginal_transformation(prior).evaluate_ln(A["y"])
+        return {"mu": post.mu, "Sigma": post.Sigma, "Lambda": post.Lambda, "ln_det_Sigma": post.ln_det_Sigma, "nu": post.nu, "pred": pred}
+
+    def claims(I, O, ops):
+        M, bb, Sy = I["M"][0], I["bb"][0], I["Sy"][0]
+        Syi, _ = spec.inv(ops, Sy)
+        emu = ops.zeros((Rp * N, Dw)); eS = ops.zeros((Rp * N, Dw, Dw)); eL = ops.zeros((Rp * N, Dw, Dw)); eld = ops.zeros((Rp * N,)); epred = ops.zeros((Rp, N))
+        for r in range(Rp):
+            Li, _ = spec.inv(ops, I["Sw"][r])
+            Lp = Li + spec.mm(spec.mm(M.T, Syi), M)
+            Sp, dLp = spec.inv(ops, Lp)
+            cov_y = Sy + spec.mm(spec.mm(M, I["Sw"][r]), M.T)
+            for n in range(N):
+                nu = spec.mv(Li, I["mw"][r]) + spec.mv(spec.mm(M.T, Syi), I["y"][n] - bb)
+                emu[r * N + n] = spec.mv(Sp, nu); eS[r * N + n] = Sp; eL[r * N + n] = Lp; eld[r * N + n] = -ops.lnabs(dLp)
+                epred[r, n] = spec.logN(ops, I["y"][n], spec.mv(M, I["mw"][r]) + bb, cov_y)
+        return [("posterior mean of (prior r, datum n) in component r*N+n", O["mu"], emu), ("posterior covariance in component r*N+n", O["Sigma"], eS),
+                ("posterior precision in component r*N+n", O["Lambda"], eL), ("posterior ln det Sigma in component r*N+n", O["ln_det_Sigma"], eld),
+                ("predictive log-density [r, n]", O["pred"], epred)]
+
+    return Case(cid, PROP, cfg, declare, fn, claims, timeout=timeout)
 
 
 def kalman_case(Dz, Dy, T, concrete=(), timeout=900):
@@ -238,6 +286,7 @@ def cases(tier, seed=0):
            regression_case(1, 1, 2, prior_via="SigmaLambda"), regression_case(1, 1, 2, prior_via="all"),
            regression_case(1, 1, 2, prior_via="measure"), regression_case(1, 1, 2, prior_via="diag"),
            regression_case(2, 1, 2, concrete=("M", "Sy"), prior_via="SigmaLambda"), regression_case(2, 1, 2, concrete=("M", "Sy"), prior_via="diag"),
+           batched_update_case(1, 1), batched_update_case(2, 1, concrete=("Sy",)), batched_update_case(1, 2, Rp=2, N=3, concrete=("Sy",)),
            kalman_case(1, 1, 2),
            kalman_case(2, 1, 2, concrete=("A", "Q", "C", "R", "S0")),
            kalman_case(2, 1, 2, concrete=("A", "Q", "R", "S0")),
